@@ -202,6 +202,25 @@ ensures
     ])
     c = U.file(C)
     c.impl('Context', [
+        # the context a semantic analysis starts from (the SEMA unit assumes exactly this of Context::new)
+        ('new', dict(ret='r', props=['C11', 'C03', 'C07'], spec='''
+ensures
+    r.symbol_table.wf(), r.symbol_table.depth() == 1,                                      //@C03,C07:fresh-context-global-scope-only
+    r.semantic_errors.kinds() =~= Seq::<SemanticErrorKind>::empty(), r.semantic_errors.include_errors@.len() == 0,
+    r.program.n_stmts() == 0, r.annotations@.len() == 0,                                   //@C11:fresh-context-is-empty''')),
+        ('push_errors_from_included_file', dict(props=['C11', 'C03'], spec='''
+ensures final(self).semantic_errors.list == old(self).semantic_errors.list,
+    final(self).semantic_errors.include_errors@ == old(self).semantic_errors.include_errors@.push(errors),
+    final(self).symbol_table == old(self).symbol_table, final(self).program == old(self).program, final(self).annotations == old(self).annotations,''')),
+        ('push_annotation', dict(props=['C06'], spec='''
+ensures final(self).annotations@ == old(self).annotations@.push(annotation), final(self).semantic_errors == old(self).semantic_errors,
+    final(self).symbol_table == old(self).symbol_table, final(self).program == old(self).program,''')),
+        ('annotations_is_empty', dict(ret='r', props=['C06'], spec='ensures r == (self.annotations@.len() == 0),')),
+        ('insert_error', dict(props=['C07', 'C12'], spec='''
+ensures final(self).semantic_errors.kinds() =~= old(self).semantic_errors.kinds().push(error_kind),
+    final(self).semantic_errors.nodes() =~= old(self).semantic_errors.nodes().push(node.sp_syntax()),                    //@C12:diagnostic-on-the-node
+    final(self).semantic_errors.include_errors == old(self).semantic_errors.include_errors,
+    final(self).symbol_table == old(self).symbol_table, final(self).program == old(self).program, final(self).annotations == old(self).annotations,''')),
         ('lookup_symbol', dict(ret='r', props=['C07'], spec='''
 requires old(self).symbol_table.wf(),
 ensures
